@@ -211,3 +211,24 @@ package media
 //@   ensures old(mapAt(&streams, s.path)) == s ==> mapAt(&streams, s.path) == nil
 //@   ensures old(mapAt(&streams, s.path)) != s ==> mapAt(&streams, s.path) == old(mapAt(&streams, s.path))
 //@   ensures s.status != StreamOK
+
+// ---- idle close (C05, C20): the periodic job of a stream that is retired or pulled on demand ---------------------------
+//@ extern func (t time.Time) Sub(u time.Time) (d time.Duration)
+//@   modifies
+//@ extern func (h Hlsable) LastAccessTime() (t time.Time)
+//@   requires h != nil
+//@   modifies
+// a stream without an HLS playlist has NO Hlsable (a nil interface, not an interface holding a nil pointer)
+//@ func (s *Stream) Hlsable() (h Hlsable)
+//@   requires s != nil
+//@   modifies
+//@   ensures (h == nil) == (s.hlsPlaylist == nil)
+// the job never panics (also for a stream without HLS: H.265, audio only), never touches the registry (frame: a
+// retired stream's job cannot remove its successor), leaves a stream that still has consumers alone, and once it
+// reports itself done the stream has been closed
+//@ func (r *runZeroConsumersClose) run() ()
+//@   requires r != nil && r.s != nil && r.s.flvCache != nil && r.s.flvMuxer != nil && r.s.rtpDemuxer != nil && r.s.cache != nil && (r.s.tsMuxer != nil ==> r.s.hlsSG != nil && r.s.hlsPlaylist != nil)
+//@   modifies r.closed, r.s.status, ghostInt(&r.s.consumptions, "n"), ghostInt(&r.s.consumptions, "closedAll"), ghostInt(&r.s.flvConsumptions, "n"), ghostInt(&r.s.flvConsumptions, "closedAll"), misc(r.s.tsMuxer), misc(r.s.hlsSG), misc(r.s.hlsPlaylist), misc(r.s.flvCache), misc(r.s.flvMuxer), misc(r.s.rtpDemuxer), misc(r.s.cache)
+//@   ensures old(ghostInt(&r.s.consumptions, "n")) > 0 ==> r.closed == old(r.closed) && r.s.status == old(r.s.status) && ghostInt(&r.s.consumptions, "n") == old(ghostInt(&r.s.consumptions, "n"))
+//@   ensures r.closed && !old(r.closed) ==> r.s.status != StreamOK
+//@   ensures old(ghostInt(&r.s.consumptions, "n")) <= 0 && r.s.hlsPlaylist == nil ==> r.closed && r.s.status != StreamOK
